@@ -333,6 +333,13 @@ def r16_3(chk, sdf, mol):
             return [("lines", callee, ap[0])]
         if a[0] == "obj":
             return classify(a[3])
+        if a[0] == "comp" and a[1] in ("ListComp", "GeneratorExp") and len(a) == 4 and a[2].as_atom() and a[2].as_atom()[0] == "call":
+            # [to_atom_line(...) for i in range(n)]: one line per iteration, the same block as an append loop
+            g = a[3][0] if len(a[3]) == 1 else None
+            hi = None
+            if g and g[0] == "range" and not g[2] and g[1].as_atom() and call_name(g[1].as_atom()) == "range" and len(g[1].as_atom()[2]) == 1:
+                hi = g[1].as_atom()[2][0]
+            return [("lines", call_name(a[2].as_atom()), ("count", hi))]
         if a[0] == "concat":
             out = []
             for x in a[1]:
@@ -489,18 +496,17 @@ def r16_3(chk, sdf, mol):
     okc = False
     if wcounts:
         kw = dict(wcounts[0].extra["kwargs"])
-        loops = {l.k: l for l in ev.all_loops if l.kind == "range"}
-        his = [l.hi.key() for l in loops.values() if l.hi is not None]
-        okc = "atoms" in kw and "bonds" in kw and kw["atoms"].key() in his and kw["bonds"].key() in his \
-            and kw["atoms"].key() != kw["bonds"].key()
-        # atom loop appends to_atom_line, bond loop appends to_bond_line
+        # number of lines of each block: the bound of the range loop that appends them / of the comprehension that builds them
+        written = {}
         for key, aps in appended.items():
             callee = call_name(aps[0].extra["args"][0].as_atom() or ())
             loop = aps[0].loops[-1] if aps[0].loops else None
-            if callee == "to_atom_line":
-                okc = okc and loop is not None and loop.hi is not None and loop.hi.key() == kw["atoms"].key()
-            if callee == "to_bond_line":
-                okc = okc and loop is not None and loop.hi is not None and loop.hi.key() == kw["bonds"].key()
+            written[callee] = loop.hi.key() if loop is not None and loop.kind == "range" and loop.hi is not None else None
+        for sct in sections:
+            if sct[0] == "lines" and isinstance(sct[2], tuple) and sct[2][0] == "count":
+                written[sct[1]] = sct[2][1].key() if sct[2][1] is not None else None
+        okc = "atoms" in kw and "bonds" in kw and kw["atoms"].key() != kw["bonds"].key() \
+            and written.get("to_atom_line") == kw["atoms"].key() and written.get("to_bond_line") == kw["bonds"].key()
     chk.ob("R16.3", SDF, q, "the counts line carries the numbers of atom and bond lines actually written", okc,
            found=str(wcounts[0].value) if wcounts else None)
     # index-advance loops are bounded
@@ -553,12 +559,17 @@ def r16_4(chk, mol, xyz):
     q = "Molecule.to_xyz_string"
     ev = mol.ev(q)
     chk.saw(MOL, q)
-    line = None
+    line = line_text = None
     for e in ev.events:
         if e.kind == "call" and e.target is not None and e.target.key().endswith(".append") and e.loops:
-            line = e
+            line, line_text = e, e.extra["args"][0]
+        elif e.kind == "call" and e.target is not None and e.target.key().endswith(".extend") and e.extra.get("args"):
+            # lines.extend(f"..." for el, (x, y, z) in zip(...)): one line per atom, the loop written as a comprehension
+            ca = e.extra["args"][0].as_atom()
+            if ca and ca[0] == "comp" and ca[1] in ("ListComp", "GeneratorExp") and len(ca) == 4 and not any(g[2] for g in ca[3]):
+                line, line_text = e, ca[2]
     chk.need(line is not None, f"{q}: atom line append not found")
-    pieces = pieces_of(line.extra["args"][0])
+    pieces = pieces_of(line_text)
     chk.need(pieces is not None, f"{q}: atom line is not an f-string")
     fm = [p for p in pieces if p.kind == "fmt"]
     lits = [p for p in pieces if p.kind == "lit"]
@@ -587,6 +598,11 @@ def r16_4(chk, mol, xyz):
     for e in ev.events:
         if e.kind == "assign" and e.name == "lines" and e.guards and e.guards[-1][1]:
             init = obj_init(e.value)
+        elif e.kind == "assign" and e.name == "lines" and not e.guards:
+            # lines = [count, comment] if header else []
+            ia = obj_init(e.value).as_atom()
+            if ia and ia[0] == "ite" and seq_items(obj_init(ia[2])) is not None and seq_items(obj_init(ia[3])) == ():
+                init = obj_init(ia[2])
     nh = len(seq_items(init)) if init is not None and seq_items(init) is not None else None
     first_is_count = False
     if nh:
